@@ -10,7 +10,7 @@ import (
 
 // vhStreamFrame builds request frame number i of the stream; kind: 0 FC3 read (12 bytes), 1 FC6 write (12 bytes),
 // 2 FC16 write of 2 registers (17 bytes), 3 a function the library does not support (0x2B, 12 bytes),
-// 4 FC3 with an out-of-range quantity (12 bytes), 5 / 6 FC16 writes of 123 / 110 registers (260 / 233 bytes). Header fields, addresses and values are symbolic.
+// 4 FC3 with an out-of-range quantity (12 bytes), 5 / 6 FC16 writes of 123 / 110 registers (260 / 233 bytes), 7 FC23 (21 bytes), 8 not Modbus TCP (last frame only). Header fields, addresses and values are symbolic.
 func vhStreamFrame(kind int) []byte {
 	th, tl := vndU8("tidhi"), vndU8("tidlo")
 	unit := vndU8("unit")
@@ -28,6 +28,23 @@ func vhStreamFrame(kind int) []byte {
 		return []byte{th, tl, 0, 0, 0, 6, unit, 0x2B, b[0], b[1], b[2], b[3]}
 	case 4:
 		return []byte{th, tl, 0, 0, 0, 6, unit, 3, b[0], b[1], 0xFF, b[2]}
+	case 7:
+		// FC23 read/write multiple registers: read 1..125, write 2 registers (21 bytes)
+		q := vndU8("qty")
+		vndAssume(q >= 1 && q <= 125)
+		return []byte{th, tl, 0, 0, 0, 15, unit, 23, b[0], b[1], 0, q, b[2], b[3], 0, 2, 4, b[4], b[5], b[6], b[7]}
+	case 8:
+		// a frame that is not Modbus TCP (protocol id other than 0, or a body truncated to the bare function code): answered with an exception addressed to what its
+		// own header says, after which the assembler drops what it has buffered - so it is only used as the last frame
+		if vndBool("truncatedToFunctionCode") {
+			// header length 2: a body cut down to the bare function code (8 bytes in all)
+			fc := vndU8("fc")
+			vndAssume(fc >= 1 && fc <= 127)
+			return []byte{th, tl, 0, 0, 0, 2, unit, fc}
+		}
+		pid := vndU8("protocol")
+		vndAssume(pid != 0)
+		return []byte{th, tl, 0, pid, 0, 6, unit, 3, b[0], b[1], 0, 1}
 	case 5, 6:
 		// the largest write request there is (FC16, 123 registers: a 260-byte frame), or one of 110 registers (233
 		// bytes): with another request behind it more than one maximal frame is buffered at once
@@ -72,6 +89,14 @@ func VH_C15_segmentation() {
 		end := len(stream)
 		if r < reads-1 {
 			end = pos + vndChoice("chunk", len(stream)-pos+1)
+			if kinds[m-1] == 8 {
+				// a frame that is not Modbus TCP has no trustworthy length: it is delivered in one piece
+				limit := 0
+				if m > 1 {
+					limit = ends[m-2]
+				}
+				vndAssume(end <= limit)
+			}
 		}
 		if end == pos {
 			continue // an empty read never reaches the assembler (the connection loop skips it)
@@ -104,7 +129,7 @@ func VH_C15_segmentation() {
 	vndCover("stream-done")
 	handled := 0
 	for i := 0; i < m; i++ {
-		if kinds[i] <= 2 || kinds[i] >= 5 {
+		if kinds[i] <= 2 || (kinds[i] >= 5 && kinds[i] <= 7) {
 			handled++
 		}
 	}
